@@ -54,6 +54,7 @@ type interpreter struct {
 	ptrIDs             map[*value]int
 	onceDone           map[string]bool
 	panicTrace         []string
+	jsonSizes          map[*gomap]value
 	locks              map[*value]*lockState
 }
 
